@@ -473,6 +473,9 @@ func (cc *connectStreamingClientConn) Receive(msg any) error {
 	// converting the bytes to a message, an error reading from the network, or
 	// just an EOF. We're going to return it to the user, but we also want to
 	// setResponseError so Send errors out.
+	if errors.Is(err, errSpecialEnvelope) {
+		err = newEndOfStreamError() // each call gets its own error value
+	}
 	cc.duplexCall.SetError(err)
 	return err
 }
